@@ -24,7 +24,7 @@ def tx_field(ex, name):
 
 
 def _run_ok(ex, st, fn, args, what):
-    """run fn to completion without faults and return the single state in which it returned Ok / ()"""
+    """run fn to completion without faults -> the states in which it returned Ok / () (one per feasible path)"""
     from exec import Unsupported
     ex.start(st, fn, args)
     outs = ex.run(st)
@@ -33,55 +33,64 @@ def _run_ok(ex, st, fn, args, what):
         if f.status == "unsupported":
             raise Unsupported(f"{what}: {f.note}")
         if f.status == "returned" and (not isinstance(f.retval, VEnum) or f.retval.concrete() == 0):
+            f.status = "running"
             good.append(f)
-    if len(good) != 1:
-        raise Unsupported(f"{what}: expected exactly one successful path, got {len(good)} of {len(outs)}")
-    good[0].status = "running"
-    return good[0]
+    if not good:
+        raise Unsupported(f"{what}: no successful path among {len(outs)}")
+    if len(good) > 8:
+        raise Unsupported(f"{what}: {len(good)} successful set-up paths")
+    return good
 
 
 def real_tx(ex, sw, st, key, content_id=(), pending=True):
     """A Transaction as the REAL code builds it: Transaction::new(cas, key) and (pending) one
     Transaction::write(chunk) run from their MIR, so that every field - also one this framework has never
-    heard of - holds what the real code puts there.  The chunk is the abstract content ('content', id).
-    -> (transaction value, state to continue from, size term)"""
+    heard of - holds what the real code puts there.  The chunk is the abstract content ('content', id) of
+    symbolic length; if the code treats chunks differently by size there is one variant per feasible path.
+    -> [(transaction value, state to continue from, size term)]"""
     saved = st.faults_left
     st.faults_left = 0
     ntrace = len(st.trace)
-    f = _run_ok(ex, st, find_fn(ex, "::new", "transaction::"), [sw.cas_ref, VSym(key, "K")], "Transaction::new")
-    tx = f.retval.payloads[0][0]
-    if pending:
-        txref = VRef(f.alloc(tx))
-        chunk = VOpaque("content", content_id)
-        f = _run_ok(ex, f, find_fn(ex, "::write", "transaction::"), [txref, VRef(f.alloc(chunk))], "Transaction::write")
-        tx = f.load(txref)
-    # the set-up (creating and filling the staging file) is not part of the operation under test
-    del f.trace[ntrace:]
-    f.faults_left = saved
-    f.retval = None
-    size = tx.fields[tx_field(ex, "size")]
-    return tx, f, size
+    out = []
+    for f in _run_ok(ex, st, find_fn(ex, "::new", "transaction::"), [sw.cas_ref, VSym(key, "K")], "Transaction::new"):
+        tx = f.retval.payloads[0][0]
+        if not pending:
+            variants = [(tx, f)]
+        else:
+            txref = VRef(f.alloc(tx))
+            chunk = VOpaque("content", content_id)
+            variants = [(g.load(txref), g) for g in _run_ok(ex, f, find_fn(ex, "::write", "transaction::"),
+                                                             [txref, VRef(f.alloc(chunk))], "Transaction::write")]
+        for tx2, g in variants:
+            # the set-up (creating and filling the staging file) is not part of the operation under test
+            del g.trace[ntrace:]
+            g.faults_left = saved
+            g.retval = None
+            out.append((tx2, g, tx2.fields[tx_field(ex, "size")]))
+    return out
 
 
 def mk_tx(ex, sw, st, pending=True):
-    """-> (transaction, state).  The content's hash (what finalize() will return) and the C18 / environment
+    """-> [(transaction, state)].  The content's hash (what finalize() will return) and the C18 / environment
     preconditions: a hash determines its content, hence its length; all distinct contents fit in u64 bytes"""
     k = sw.sym_key(st, "op_key")
     sw.op_key = k
-    tx, st, size = real_tx(ex, sw, st, k, (), pending)
-    sz = ex.new_int(st, "u64", "tx_size")
-    st.pc.append(sz.t == size.t)
-    tx.fields[tx_field(ex, "size")] = sz
-    sw.op_size = sz.t
     h = sw.sym_hash(st, "op_hash")
-    st.meta["content-hash"] = h
-    st.meta["hashed-content"] = (("content", ()),)
     sw.op_hash = h
+    sz = ex.new_int(st, "u64", "tx_size")
+    sw.op_size = sz.t
     w = sw.iw
     for i in range(w.U):
         st.pc.append(z3.Implies(z3.And(w.pk[i], w.hk[i] == h), w.sk[i] == sz.t))
     st.pc.append(w.total + sz.t <= U64)
-    return tx, st
+    st.meta["content-hash"] = h
+    st.meta["hashed-content"] = (("content", ()),)
+    out = []
+    for tx, st2, size in real_tx(ex, sw, st, k, (), pending):
+        st2.pc.append(sz.t == size.t)
+        tx.fields[tx_field(ex, "size")] = VInt(sz.t, "u64")
+        out.append((tx, st2))
+    return out
 
 
 def orphan_stats(ex, sw, st, n=1):
@@ -127,11 +136,11 @@ def open_new(ex, sw, st):
 
 ENTRY = {
     "open.new": open_new,
-    "put.finish": lambda ex, sw, st: (lambda t: (find_fn(ex, "::commit", "transaction::"), [t[0]], t[1]))(mk_tx(ex, sw, st)),
+    "put.finish": lambda ex, sw, st: [(find_fn(ex, "::commit", "transaction::"), [t[0]], t[1]) for t in mk_tx(ex, sw, st)],
     "put.new": lambda ex, sw, st: (find_fn(ex, "::new", "transaction::"), [sw.cas_ref, VSym(sw.sym_key(st, "op_key"), "K")]),
-    "tx.write": lambda ex, sw, st: (lambda t: (find_fn(ex, "::write", "transaction::"),
-                                               [VRef(t[1].alloc(t[0])), VRef(t[1].alloc(VOpaque("bytes", ("chunk",))))], t[1]))(mk_tx(ex, sw, st)),
-    "tx.drop": lambda ex, sw, st: (lambda t: ("drop", [t[0]], t[1]))(mk_tx(ex, sw, st)),
+    "tx.write": lambda ex, sw, st: [(find_fn(ex, "::write", "transaction::"),
+                                     [VRef(t[1].alloc(t[0])), VRef(t[1].alloc(VOpaque("bytes", ("chunk",))))], t[1]) for t in mk_tx(ex, sw, st)],
+    "tx.drop": lambda ex, sw, st: [("drop", [t[0]], t[1]) for t in mk_tx(ex, sw, st)],
     "get": lambda ex, sw, st: (find_fn(ex, "::get", "cas::"), [sw.cas_ref, keyref(sw, st)]),
     "get_size": lambda ex, sw, st: (find_fn(ex, "::get_size", "cas::"), [sw.cas_ref, keyref(sw, st)]),
     "get_reader": lambda ex, sw, st: (find_fn(ex, "::get_reader", "cas::"), [sw.cas_ref, keyref(sw, st)]),
@@ -165,19 +174,20 @@ def explore(ex, name, U=2, HU=2, faults=0, spill=False, **world):
 
 def _explore(ex, name, sw, st):
     ent = ENTRY[name](ex, sw, st)
-    fn, args = ent[0], ent[1]
-    if len(ent) > 2:
-        st = ent[2]       # the entry point's set-up ran real code: continue from the state it produced
-    if fn == "drop":
-        # dropping a value: run the drop glue (Drop impls, field drops) on it
-        finals = []
-        for s2 in ex.drop_value(st, args[0], VRef(st.alloc(args[0]))):
-            if s2.frames:
-                finals += ex.run(s2)
-            else:
-                s2.status = "returned"
-                finals.append(s2)
-        return sw, finals
-    ex.start(st, fn, args)
-    finals = ex.run(st)
+    variants = ent if isinstance(ent, list) else [ent]
+    finals = []
+    for v in variants:
+        fn, args = v[0], v[1]
+        st1 = v[2] if len(v) > 2 else st     # the entry point's set-up ran real code: continue from the state it produced
+        if fn == "drop":
+            # dropping a value: run the drop glue (Drop impls, field drops) on it
+            for s2 in ex.drop_value(st1, args[0], VRef(st1.alloc(args[0]))):
+                if s2.frames:
+                    finals += ex.run(s2)
+                else:
+                    s2.status = "returned"
+                    finals.append(s2)
+            continue
+        ex.start(st1, fn, args)
+        finals += ex.run(st1)
     return sw, finals
